@@ -55,13 +55,14 @@ ASSUMPTIONS = [
     "qhull triangulations that do not tile the polygon exactly are counted and skipped (label tri-invalid)",
 ]
 FNS = ["line_tessellation", "match_1d", "triangulations", "surface_tessellations", "match_2d"]
-# While C33-surface-tessellations-empty-polygon is open nearly every surface_tessellations case is excluded (and
-# excluded cases carry no labels), so the thresholds of that family are set for the open state (observed: 2.3 % /
-# 0.35 % / 0.7 % of the counted cases; 20 % / 2.5 % / 10 % once the function is repaired).
+# Cases excluded by an open finding carry no labels, so the thresholds are set for the state with the findings
+# open: C33-match2d-rotated-overlay-collapse excludes ~58 % of the match_2d cases (those with a hanging node) and
+# C33-surface-tessellations-third-set-shared-edge most three-set cases (observed fractions of the counted cases:
+# match_2d 9 %, match2d-rotated 4 %, st-three-sets 2.5 %, st-simplexes 9 %).
 REQUIRED = {
-    "line_tessellation": 0.1, "match_1d": 0.1, "triangulations": 0.1, "surface_tessellations": 0.008, "match_2d": 0.1,
+    "line_tessellation": 0.1, "match_1d": 0.1, "triangulations": 0.1, "surface_tessellations": 0.08, "match_2d": 0.04,
     "1d-shared-nodes": 0.05, "1d-skew-line": 0.05, "1d-axis-line": 0.03, "2d-shared-nodes": 0.03,
-    "2d-boundary-nodes": 0.03, "2d-valid": 0.25, "match2d-rotated": 0.02, "st-three-sets": 0.0005, "st-simplexes": 0.002,
+    "2d-boundary-nodes": 0.03, "2d-valid": 0.25, "match2d-rotated": 0.01, "st-three-sets": 0.005, "st-simplexes": 0.02,
 }
 RT = 1e-10
 
@@ -335,10 +336,14 @@ def _vertex_in_edge_interior(T1, T2):
 
 
 def _known_rotated_overlay(s) -> bool:
-    """match_2d on a plane rotated out of z = const (coordinates carry rounding noise) where two cells with a
-    common area are in a hanging-node relation: a vertex of one lies in the interior of an edge of the other.
-    GEOS 3.13 then occasionally returns a MultiPoint instead of the common polygon and the overlap is lost."""
-    if s["fn"] != "match_2d" or s.get("rot") is None:
+    """match_2d where two cells with a common area are in a hanging-node relation: a vertex of one lies in the
+    interior of an edge of the other.  match_2d hands shapely coordinates that carry rounding noise - it always
+    subtracts the mean of the nodes (not representable in general) and, for a plane that is not z = const, rotates -
+    so the vertex is only within ~1e-16 of the edge; GEOS 3.13 then occasionally returns a MultiPoint / Point /
+    GeometryCollection instead of the common polygon (although relate() says the interiors intersect) and the
+    overlap is lost.  First seen for rotated planes (1 in ~120 cases), later also for z = const (about 1 in 1000:
+    seeds 12 and 13), hence no condition on the rotation."""
+    if s["fn"] != "match_2d":
         return False
     T = _tri_sets(s)
     return T is not None and _vertex_in_edge_interior(T[0], T[1])
@@ -357,17 +362,36 @@ def _interior_edges(tris, hull):
     return out
 
 
-def _known_third_set(s) -> bool:
-    """surface_tessellations with three sets where an interior edge of the third tessellation overlaps (in a
-    segment) an interior edge of the first or second one: the cells of the first round have rounded intersection
-    points as vertices, which then sit within 1e-16 of an edge of the third set, and GEOS returns whole cells for
-    pairs that only share that edge (overlapping output cells; degenerate rings that break return_simplexes)."""
-    if s["fn"] != "surface_tessellations" or s.get("in3") is None:
-        return False
-    T = _tri_sets(s)
-    if T is None:
-        return False
-    hull = [eg.pt(p) for p in s["hull"]]
+def _edges_of(tris):
+    out = set()
+    for t in tris:
+        for i in range(3):
+            a, b = t[i], t[(i + 1) % 3]
+            out.add((a, b) if a <= b else (b, a))
+    return sorted(out)
+
+
+def _first_round_vertex_on_third_edge(T) -> bool:
+    """Some point X in which an edge of the first and an edge of the second tessellation meet (a single point that
+    is not a node of both sets, i.e. a vertex that the first intersection round creates or nodes into a cell
+    boundary) lies on an edge of the third tessellation: three edges, one of each set, through one point."""
+    v1 = {v for t in T[0] for v in t}
+    v2 = {v for t in T[1] for v in t}
+    e3 = _edges_of(T[2])
+    for a, b in _edges_of(T[0]):
+        for c, d in _edges_of(T[1]):
+            r = eg.segment_intersection(a, b, c, d)
+            if r[0] != "point":
+                continue
+            X = r[1]
+            if X in v1 and X in v2:
+                continue
+            if any(eg.point_on_segment(X, e, f) for e, f in e3):
+                return True
+    return False
+
+
+def _third_shares_interior_edge(T, hull) -> bool:
     e3 = _interior_edges(T[2], hull)
     for k in (0, 1):
         for a, b in _interior_edges(T[k], hull):
@@ -375,6 +399,28 @@ def _known_third_set(s) -> bool:
                 if eg.segment_intersection(a, b, c, d)[0] == "segment":
                     return True
     return False
+
+
+def _known_third_set(s) -> bool:
+    """surface_tessellations with three sets where the second intersection round meets a first-round vertex exactly
+    on an edge of the third set (three edges, one of each set, through one point that is not a common node of the
+    first two sets).  The first-round cells carry that vertex as a rounded / noded coordinate, the overlay with the
+    third set computes it again, and the result rings get near-duplicate or collinear vertices:
+      * with return_simplexes the convexity test (is_ccw_polyline on every vertex triple, no tolerance) sees mixed
+        signs -> NotImplementedError('Non-convex polygons not covered'), or qhull gets a flat ring -> QhullError.
+        Observed for the concurrency alone (242 of 242 failing three-set cases in 4 500 generated ones have it;
+        none of the 539 cases that only share an edge without such a point failed);
+      * without return_simplexes the visible damage (whole cells returned twice, areas not adding up) was only
+        observed when, in addition, an interior edge of the third set overlaps an interior edge of the first or
+        second one (31 of 31), so that is demanded for this mode."""
+    if s["fn"] != "surface_tessellations" or s.get("in3") is None:
+        return False
+    T = _tri_sets(s)
+    if T is None:
+        return False
+    if not _first_round_vertex_on_third_edge(T):
+        return False
+    return bool(s.get("simplexes")) or _third_shares_interior_edge(T, [eg.pt(p) for p in s["hull"]])
 
 
 KNOWN = {
